@@ -37,7 +37,81 @@ def run(facts, rep):
     d3_pools(facts, rep)
 
 
+def d1_size_chain(facts, rep):
+    """"When a requested size cannot be represented (overflow in size + header + alignment) every entry point reports failure":
+    the large-object paths enlarge the caller's size in steps (size + headers + alignment, rounded up to a bin / to the OS
+    granularity).  Each enlarged value can wrap around; a wrapped value is small, the request then "succeeds" with a block or
+    a mapping that is far too small.  Rule: in the functions below, every local size that is derived from the requested size by an
+    addition (directly or through another derived size) is compared with the value it was derived from on an edge that
+    dominates the point where it is used to obtain memory (mallocLargeObject / the large-object cache / mremap)."""
+    SITES = {
+        'rml::internal::MemoryPool::getFromLLOCache': ('mallocLargeObject', 'get'),
+        'rml::internal::Backend::remap': ('mremap',),
+    }
+    n = 0
+    for pname, users in sorted(SITES.items()):
+        for fn in facts.get(pname):
+            defs = Defs(fn)
+            params = dict((pp['v'], pp.get('n')) for pp in fn.d.get('params', []) if 'size_t' in (pp.get('ty') or '') or 'unsigned long' in (pp.get('ty') or ''))
+            derived = {}          # vid -> set of predecessor vids (params or derived)
+            names = dict(params)
+            changed = True
+            while changed:
+                changed = False
+                for (vid, dn), val in defs.value_of.items():
+                    if val is None or vid in params:
+                        continue
+                    sub = fn.subtree(val)
+                    if not any(fn.nodes[x].get('k') == 'binop' and fn.nodes[x].get('op') == '+' for x in sub):
+                        continue
+                    preds = set(fn.nodes[x].get('v') for x in sub if fn.nodes[x].get('k') == 'var' and
+                                (fn.nodes[x].get('v') in params or fn.nodes[x].get('v') in derived))
+                    preds.discard(vid)
+                    if preds and derived.get(vid) != preds:
+                        derived[vid] = preds
+                        names[vid] = next((v['n'] for nd in fn.nodes if nd.get('k') == 'decl' for v in nd['vars'] if v['v'] == vid), str(vid))
+                        changed = True
+            uses = [c for c in calls(fn) if (c[3] or {}).get('n') in users]
+            if not derived or not uses:
+                raise AnalysisBroken('%s: derived sizes / memory-obtaining call not found' % pname)
+            def cone(node):
+                vs = set()
+                for a in node.get('a', []):
+                    vs |= set(fn.nodes[x].get('v') for x in fn.subtree(a) if fn.nodes[x].get('k') == 'var')
+                work = list(vs)
+                while work:
+                    v = work.pop()
+                    for p_ in derived.get(v, ()):
+                        if p_ not in vs:
+                            vs.add(p_)
+                            work.append(p_)
+                return vs
+            cones = dict((c[1], cone(c[2])) for c in uses)
+            for vid, preds in sorted(derived.items()):
+                # only sizes that reach the memory-obtaining calls matter: directly as argument or through a later derived size
+                def compared(a, truth, vid=vid, preds=preds):
+                    nd = fn.n(fn.strip(a))
+                    if nd.get('k') != 'binop' or nd['op'] not in ('<', '<=', '>', '>='):
+                        return False
+                    l, r = fn.n(fn.strip(nd['l'])), fn.n(fn.strip(nd['r']))
+                    vs = set(x.get('v') for x in (l, r) if x.get('k') == 'var')
+                    return vid in vs and bool(vs & preds)
+                e = edges_where(fn, compared)
+                for pos, sx, node, d in uses:
+                    if vid not in cones[sx]:
+                        continue
+                    n += 1
+                    ok, wit = dominated_by_edges(fn, pos, e)
+                    rep.ob('D1', 'K14', fn, 'the enlarged size `%s` is checked for wrap-around against `%s` before %s is called'
+                           % (names.get(vid), '/'.join(sorted(names.get(p_, '?') for p_ in preds)), d.get('n')), ok,
+                           'a request close to SIZE_MAX wraps `%s` to a small value: the call succeeds with far too little memory behind the '
+                           'returned pointer (%s)' % (names.get(vid), wit), ln=node['ln'], key_extra='chain|%s|%s|%s' % (pname, names.get(vid), d.get('n')))
+    if n < 4:
+        raise AnalysisBroken('size chains: fewer obligations than confirmed by reading (%d)' % n)
+
+
 def d1_entry(facts, rep):
+    d1_size_chain(facts, rep)
     for name, chk in (('scalable_posix_memalign', 'isPowerOfTwoAtLeast'), ('scalable_aligned_malloc', 'isPowerOfTwo'),
                       ('scalable_aligned_realloc', 'isPowerOfTwo'), ('__TBB_malloc_safer_aligned_realloc', 'isPowerOfTwo')):
         for fn in facts.get(name):
